@@ -296,9 +296,11 @@ func (sc *Schema) field(where, body string, top, owner *Struct) (*Field, *Struct
 		for _, p := range strings.Split(body[i+4:], ", ") {
 			if m := reVPlus.FindStringSubmatch(p); m != nil {
 				f.MinV, _ = strconv.Atoi(m[1])
+				f.HasVersion = true
 			} else if m := reVRange.FindStringSubmatch(p); m != nil {
 				f.MinV, _ = strconv.Atoi(m[1])
 				f.MaxV, _ = strconv.Atoi(m[2])
+				f.HasVersion = true
 				if f.MaxV < f.MinV {
 					sc.problem("%s: empty version range %q", where, p)
 				}
